@@ -130,13 +130,13 @@ def build_meas(m):
     if kind == "var":
         return qp.var(obs)
     if kind == "probs":
-        return qp.probs(op=obs) if obs is not None else qp.probs(wires=ws)
+        return qp.probs(op=obs) if obs is not None else (qp.probs(wires=ws) if ws is not None else qp.probs())
     if kind == "state":
         return qp.state()
     if kind == "density_matrix":
         return qp.density_matrix(wires=ws)
     if kind == "sample":
-        return qp.sample(op=obs) if obs is not None else qp.sample(wires=ws)
+        return qp.sample(op=obs) if obs is not None else (qp.sample(wires=ws) if ws is not None else qp.sample())
     if kind == "counts":
         kw = {"all_outcomes": m.get("all_outcomes", False)}
         return qp.counts(op=obs, **kw) if obs is not None else qp.counts(wires=ws, **kw)
